@@ -11,13 +11,24 @@
 (*   SealSwap    Lock, sealed := new, active := nil, Unlock, sealWg.Done   *)
 (*   SealRelease Active.Release: useMu.Lock, released := true, Unlock, free*)
 (*   DelTry / DelWait / DelActive / DelSealed   proxyFrac.Suicide          *)
+(*   ReadAsk     a request that holds the proxy in its fraction list asks  *)
+(*              it a question that goes through proxyFrac.cur() (Info,     *)
+(*              IsIntersecting, Contains) before it reads                  *)
 (*   ReadAcquire / ReadRelease   DataProvider under the proxy's RLock and  *)
 (*              the fraction's RLock, held for the whole request           *)
+(* CurNilSafe = FALSE is the code as it is: cur() returns `sealed` if that *)
+(* is set and `active` otherwise - a nil *Active once the proxy is in the  *)
+(* Suicided state, and the question then panics (pc "panic").  That needs  *)
+(* retention to delete a fraction whose seal has not replaced the proxy in *)
+(* the manager's list yet (TotalSize of a few fractions), which is outside *)
+(* C07's quantifier (rotate -> seal -> release): PanicOnlyAfterDeletion is *)
+(* the invariant C07 needs and the code has; NoPanic holds only for        *)
+(* CurNilSafe = TRUE (recorded in DESIGN.md as an observation).            *)
 (* ReleaseBeforeSwap = TRUE is a deliberately wrong order (thorough tier,  *)
 (* non-vacuity): it is caught by NoSpuriousEmpty.                          *)
 (***************************************************************************)
 EXTENDS Naturals, Sequences, FiniteSets, TLC
-CONSTANTS Appenders, Readers, ReleaseBeforeSwap
+CONSTANTS Appenders, Readers, ReleaseBeforeSwap, CurNilSafe
 \* proxyFrac{active, sealed, readonly} + Active{useMu, released} + Sealed{useMu, suicided}
 VARIABLES hasA, hasS, ro, pR, pW,          \* proxy state and proxy.useMu (readers, writer)
           aR, aW, aReleased, aSuicided,    \* Active.useMu and flags
@@ -65,8 +76,11 @@ DelActive == /\ pcD = "delActive" /\ aR = 0 /\ ~aW /\ aSuicided' = TRUE /\ aRele
    /\ U(<<hasA, hasS, ro, pR, pW, aR, aW, sR, sW, sSuicided, indexWg, sealWg, admitted, indexed, sealedDocs, pcA, pcS, pcR, using>>)
 DelSealed == /\ pcD = "delSealed" /\ sR = 0 /\ ~sW /\ sSuicided' = TRUE /\ pcD' = "done"
    /\ U(<<hasA, hasS, ro, pR, pW, aR, aW, aReleased, aSuicided, sR, sW, indexWg, sealWg, admitted, indexed, sealedDocs, pcA, pcS, pcR, using>>)
-\* ---- Readers (proxyFrac.DataProvider -> Active/Sealed.DataProvider)
-ReadAcquire(r) == /\ pcR[r] = "start" /\ ~pW          \* under proxy RLock: choose target and take its RLock (if not blocked)
+\* ---- Readers (proxyFrac.cur()-based question, then proxyFrac.DataProvider -> Active/Sealed.DataProvider)
+ReadAsk(r) == /\ pcR[r] = "start" /\ ~pW            \* cur() under the proxy's RLock; the question itself runs outside it
+   /\ pcR' = [pcR EXCEPT ![r] = IF ~hasS /\ ~hasA /\ ~CurNilSafe THEN "panic" ELSE "asked"]
+   /\ U(<<hasA, hasS, ro, pR, pW, aR, aW, aReleased, aSuicided, sR, sW, sSuicided, indexWg, sealWg, admitted, indexed, sealedDocs, pcA, pcS, pcD, using>>)
+ReadAcquire(r) == /\ pcR[r] = "asked" /\ ~pW          \* under proxy RLock: choose target and take its RLock (if not blocked)
    /\ (IF hasA THEN (/\ ~aW
                    /\ (IF aReleased \/ aSuicided THEN (using' = [using EXCEPT ![r] = "empty"] /\ UNCHANGED <<aR, sR>>)
                       ELSE (using' = [using EXCEPT ![r] = "active"] /\ aR' = aR + 1 /\ UNCHANGED sR)))
@@ -81,13 +95,16 @@ ReadRelease(r) == /\ pcR[r] = "use" /\ pcR' = [pcR EXCEPT ![r] = "done"]
    /\ using' = [using EXCEPT ![r] = "none"]
    /\ U(<<hasA, hasS, ro, pR, pW, aW, aReleased, aSuicided, sW, sSuicided, indexWg, sealWg, admitted, indexed, sealedDocs, pcA, pcS, pcD>>)
 Next == (\E a \in Appenders : AppAdmit(a) \/ AppIndex(a)) \/ SealBegin \/ SealWrite \/ SealSwap \/ SealRelease
-        \/ DelTry \/ DelWait \/ DelActive \/ DelSealed \/ (\E r \in Readers : ReadAcquire(r) \/ ReadRelease(r))
+        \/ DelTry \/ DelWait \/ DelActive \/ DelSealed \/ (\E r \in Readers : ReadAsk(r) \/ ReadAcquire(r) \/ ReadRelease(r))
 Spec == Init /\ [][Next]_vars
 OnlyFourStates == \/ (hasA /\ ~hasS /\ ~ro) \/ (hasA /\ ~hasS /\ ro) \/ (~hasA /\ hasS /\ ro) \/ (~hasA /\ ~hasS)
 ReaderNeverSeesFreed == \A r \in Readers : (using[r] = "active" => ~aReleased) /\ (using[r] = "sealed" => ~sSuicided)
 AckedIsSealed == (pcS \in {"swap","release","done"}) => \A a \in Appenders : pcA[a] = "acked" => a \in sealedDocs
 AllDone == /\ \A a \in Appenders : pcA[a] \in {"acked","refused"} /\ pcS \notin {"start","waitIdle","swap","release"}
-           /\ pcD = "done" /\ \A r \in Readers : pcR[r] = "done"
+           /\ pcD = "done" /\ \A r \in Readers : pcR[r] \in {"done", "panic"}
 NoSpuriousEmpty == \A r \in Readers : using[r] = "empty" => pcD \notin {"start", "waitSeal", "retry"}
 NoDeadlock == (~ENABLED Next) => AllDone
+NoPanic == \A r \in Readers : pcR[r] # "panic"
+\* without a deletion no question ever meets a nil fraction (what C07 states; holds for the code as it is)
+PanicOnlyAfterDeletion == (\E r \in Readers : pcR[r] = "panic") => pcD # "start"
 =============================================================================
